@@ -1,6 +1,7 @@
 import Sebuf.Driver
 import Sebuf.DriverC12
 import Sebuf.DriverC16
+import Sebuf.DriverC02
 namespace Sebuf.DriverOps
 open Lean (Json)
 def dispatch (op : String) (j : Json) : Json :=
@@ -9,6 +10,7 @@ def dispatch (op : String) (j : Json) : Json :=
   | "route_svc" => Sebuf.Driver.opRouteSvc j
   | "gen_outcome" => Sebuf.Driver.opGenOutcome j
   | "mock_graph" => Sebuf.Driver.opMockGraph j
+  | "bind_case" => Sebuf.Driver.opBindCase j
   | "strfn" => Sebuf.Driver.opStrFn j
   | _ => Json.mkObj [("driver_err", Json.str ("unknown op " ++ op))]
 end Sebuf.DriverOps
